@@ -52,3 +52,26 @@ Theorem C09_nonvacuous :
   forallb safe w_safe_args = true /\ head_ok w_safe_args = true /\ last_ok w_safe_args = true /\
   eval_call (env_of_list [([120], [122])]) (w_cmd :: w_safe_args) = Call None None w_cmd w_safe_args.
 Proof. exact roundtrip_example. Qed.
+
+(* ---- index-faithful model (EvalSerIx.v): eval.rs::parse over the index-faithful parser, with
+   `instructions[0]` as an explicit partial operation, and the second binding over the index-faithful
+   binder.  The text assembly itself has no partial operation. ---------------------------------------- *)
+Require Import DS.ParserIx DS.ExpansionIx DS.EvalSerIx DS.EvalSerIxProof.
+
+(* what if / elseif / while / not / alias commands run (the `is_empty` guard, parse, re-bind):
+   no panic for ANY argument vector and ANY environment *)
+Theorem C09_ix_total : forall variables arguments, eval_call_ix variables arguments <> CallPanic.
+Proof. exact eval_call_ix_total. Qed.
+(* the index model equals the suffix model, so C09_roundtrip etc. transfer *)
+Theorem C09_ix_refines : forall variables arguments,
+  eval_call_ix variables arguments = eval_call variables arguments.
+Proof. exact eval_call_ix_refines. Qed.
+(* the private fn `parse` alone: total on every non-empty vector ... *)
+Theorem C09_ix_parse_total : forall arguments, arguments <> [] -> eval_parse_ix arguments <> ParsePanic.
+Proof. exact eval_parse_ix_total. Qed.
+Theorem C09_ix_parse_refines : forall arguments, eval_parse_ix arguments = eval_parse arguments.
+Proof. exact eval_parse_ix_refines. Qed.
+(* ... and it does index an empty instruction vector when handed no arguments (not reachable: eval and
+   eval_with_instructions both test `arguments.is_empty()` first) *)
+Theorem C09_ix_parse_unguarded_refuted : exists arguments, eval_parse_ix arguments = ParsePanic.
+Proof. exact eval_parse_ix_unguarded. Qed.
